@@ -114,6 +114,10 @@ type Run struct {
 	liveInHandler           int32
 	fallbacks, rejections   int
 	nilDeref                bool
+	marked                  bool
+	markAsked, markExits    int64
+	markErrs                int64
+	markRuns                int
 	otherPanic              interface{}
 }
 
@@ -170,6 +174,21 @@ func (r *Run) InHandler() error {
 	return nil
 }
 
+// Returned marks the moment the middleware body itself returned (used for frameworks that run the handler *after*
+// the middleware has returned, e.g. gear): Finish then reports the events of the body's own activation — what the
+// IR describes — and notes on stderr whether the handler ran afterwards, outside the entry.
+func (r *Run) Returned() {
+	if r.marked {
+		return
+	}
+	n := r.node()
+	r.marked = true
+	r.markAsked = sum(n, base.MetricEventPass) + sum(n, base.MetricEventBlock)
+	r.markExits = sum(n, base.MetricEventComplete)
+	r.markErrs = sum(n, base.MetricEventError)
+	r.markRuns = r.handlerRuns
+}
+
 // Fallback: the configured block fallback was invoked.
 func (r *Run) Fallback() { r.fallbacks++ }
 
@@ -217,10 +236,18 @@ func (r *Run) Finish() {
 	exits := sum(n, base.MetricEventComplete)
 	errs := sum(n, base.MetricEventError)
 	var evs []string
-	if r.handlerRuns > 0 {
+	runs := r.handlerRuns
+	if r.marked {
+		if r.handlerRuns > r.markRuns {
+			fmt.Fprintf(os.Stderr, "note %s %v %s: handler ran %d time(s) after the middleware had returned (entry exits by then: %d)\n",
+				r.Key, r.Sc.Blocked, r.Sc.Handler, r.handlerRuns-r.markRuns, r.markExits)
+		}
+		asked, exits, errs, runs = r.markAsked, r.markExits, r.markErrs, r.markRuns
+	}
+	if runs > 0 {
 		evs = rep(evs, "entryAsked", r.askedBefore)
 		evs = rep(evs, "exit", r.exitBefore)
-		evs = rep(evs, "handlerRun", int64(r.handlerRuns))
+		evs = rep(evs, "handlerRun", int64(runs))
 		if r.Sc.Handler == "err" && r.ErrBack {
 			evs = append(evs, "errBack")
 		}
@@ -241,10 +268,10 @@ func (r *Run) Finish() {
 	// consistency of the probes themselves: the gauge must equal passes minus exits, and a live entry inside the
 	// handler must show as concurrency 1
 	if n != nil {
-		if int64(n.CurrentConcurrency()) != sum(n, base.MetricEventPass)-exits {
+		if int64(n.CurrentConcurrency()) != sum(n, base.MetricEventPass)-sum(n, base.MetricEventComplete) {
 			evs = append(evs, "gaugeMismatch")
 		}
-		if r.handlerRuns > 0 && int64(r.liveInHandler) != (r.askedBefore-sum(n, base.MetricEventBlock))-r.exitBefore {
+		if runs > 0 && int64(r.liveInHandler) != (r.askedBefore-sum(n, base.MetricEventBlock))-r.exitBefore {
 			evs = append(evs, "liveMismatch")
 		}
 	}
